@@ -400,6 +400,40 @@ def label_type(h: Hypergraph):
 
 def label_type_ok(h: Hypergraph):
     return [edge for edge in h.get_edges() if isinstance(edge, tuple)]
+
+
+def zip_align(snapshots):
+    out = {}
+    for t, snap in zip(sorted(snapshots.keys()), snapshots.values()):
+        out[t] = snap
+    return out
+
+
+def zip_align_ok(snapshots):
+    out = {}
+    for t, snap in zip(snapshots.keys(), snapshots.values()):
+        out[t] = snap
+    return out
+
+
+def truthy_index(scores):
+    best = None
+    top = float("-inf")
+    for r in range(len(scores)):
+        if not best or scores[r] > top:
+            best = r
+            top = scores[r]
+    return best
+
+
+def truthy_index_ok(scores):
+    best = None
+    top = float("-inf")
+    for r in range(len(scores)):
+        if best is None or scores[r] > top:
+            best = r
+            top = scores[r]
+    return best
 '''
 
 _PROBE_EXPECT = {
@@ -432,6 +466,10 @@ _PROBE_EXPECT = {
     "shape_guess_ok": ("G-SHAPEGUESS", False),
     "label_type": ("K-LABELTYPE", True),
     "label_type_ok": ("K-LABELTYPE", False),
+    "zip_align": ("G-ZIPALIGN", True),
+    "zip_align_ok": ("G-ZIPALIGN", False),
+    "truthy_index": ("G-TRUTHY0", True),
+    "truthy_index_ok": ("G-TRUTHY0", False),
 }
 
 
@@ -443,7 +481,7 @@ def lint_pack_controls(repo: str) -> dict:
     from .effects import check_shared_literals
     from .report import Result
 
-    fns = {"G-STALE": L.check_stale_in_loop, "G-REUSE": L.check_iterator_reuse, "N-FANCYAUG": L.check_fancy_augassign, "G-GROUPBY": L.check_groupby_sorted, "E-SHARED": check_shared_literals, "G-LIVEITER": L.check_mutation_while_iterating, "E-DEFAULTARG": L.check_mutable_defaults, "G-KEYPROJ": L.check_key_projection, "K-OWNER": L.check_id_owner, "G-COUNTERADD": L.check_counter_arith, "G-ZEROBUCKET": L.check_zero_buckets, "G-LENVALID": L.check_len_validated_cache, "G-SHAPEGUESS": L.check_layout_guess, "K-LABELTYPE": L.check_label_type_dispatch}
+    fns = {"G-STALE": L.check_stale_in_loop, "G-REUSE": L.check_iterator_reuse, "N-FANCYAUG": L.check_fancy_augassign, "G-GROUPBY": L.check_groupby_sorted, "E-SHARED": check_shared_literals, "G-LIVEITER": L.check_mutation_while_iterating, "E-DEFAULTARG": L.check_mutable_defaults, "G-KEYPROJ": L.check_key_projection, "K-OWNER": L.check_id_owner, "G-COUNTERADD": L.check_counter_arith, "G-ZEROBUCKET": L.check_zero_buckets, "G-LENVALID": L.check_len_validated_cache, "G-SHAPEGUESS": L.check_layout_guess, "K-LABELTYPE": L.check_label_type_dispatch, "G-ZIPALIGN": L.check_zip_alignment, "G-TRUTHY0": L.check_truthy_index}
     ctx = Ctx(repo, "quick", overrides={_PROBE_REL: _PROBE_SRC})
     out = {"controls": [], "broken": []}
     for name, (rule, must) in _PROBE_EXPECT.items():
